@@ -115,6 +115,25 @@ def contiguousRun (cap : Nat) (pub : List (Nat × Nat × Bytes)) (got : List (Na
     if (List.range (min 3 n + 1)).any fun h => (List.range (n - h + 1)).any fun g => okSplit h g
     then "ok" else "bad:not-headers-then-gop-replay-then-one-contiguous-run"
 
+/-- C02 "a consumer of a stream that currently has no video is never held back": the first message
+    published after consumer (k, id) joined, in an incarnation that has published no video sequence
+    header so far, must have been received (checked when nothing can still be pending in a merge writer). -/
+def neverHeldBack (evs : List Ev) (k : Kind) (id : Nat) (got : List (Nat × Nat × Bytes)) : Bool :=
+  let r := evs.foldl (fun (acc : Bool × Bool × Bool × Bool) e =>
+    -- (publisher on, video header seen in this incarnation, consumer present, verdict so far)
+    let (on, vid, here, ok) := acc
+    match e with
+    | .addPub => (true, vid, here, ok)
+    | .delPub => (false, false, here, ok)
+    | .join k' id' => if k' == k && id' == id then (on, vid, true, ok) else acc
+    | .leave k' id' => if k' == k && id' == id then (on, vid, false, ok) else acc
+    | .msg m =>
+      if !on || m.payload.isEmpty then acc else
+      let isV := Classify.isVideoKeySeqHeader m.typ m.payload
+      let ok' := if here && !vid && !isV then ok && got.contains (m.typ, m.ts, withoutSdf m.typ m.payload) else ok
+      (on, vid || isV, here, ok')) (false, false, false, true)
+  r.2.2.2
+
 def decodeRtmp (b : Bytes) : Option (List (Nat × Nat × Bytes)) :=
   (ChunkSpec.read Gen.localChunkSize b).map fun ms => ms.map fun m => (m.typ, m.ts, m.payload)
 
@@ -137,7 +156,12 @@ def oracle (cfg : Cfg) (evs : List Ev) (impl : String) : String :=
       let dec := if k.startsWith "r" then decodeRtmp b else if k.startsWith "w" then decodeWs b else decodeFlv b
       match dec with
       | none => "bad:" ++ k ++ "-stream-not-well-framed"
-      | some got => let v := contiguousRun (if k.startsWith "r" then cfg.rtmpCap else if k.startsWith "R" then 0 else cfg.flvCap) pub got; if v.startsWith "bad" then v ++ ":" ++ k else v
+      | some got =>
+        let kk := kindOf (k.take 1).toString
+        let idn := nat! (k.drop 1).toString
+        if kk != .record && (kk != .rtmp || cfg.mergeSize == 0) && !neverHeldBack evs kk idn got then
+          "bad:held-back-although-the-stream-has-no-video:" ++ k else
+        let v := contiguousRun (if k.startsWith "r" then cfg.rtmpCap else if k.startsWith "R" then 0 else cfg.flvCap) pub got; if v.startsWith "bad" then v ++ ":" ++ k else v
     | _ => "bad:unparsable"
   (verdicts.find? (·.startsWith "bad")).getD "ok"
 
